@@ -1,6 +1,6 @@
 from nucsvc.enginespec import *
 
-interface("Propagator", types=PROP_IFACE_T, requires=PROP_IFACE_REQ, ensures=PROP_IFACE_ENS, modifies=["domains"])
+interface("Propagator", types=PROP_IFACE_T, requires=PROP_IFACE_REQ, ensures=PROP_IFACE_ENS + [PROP_IFACE_SOL], modifies=["domains"])
 
 F, E, I, NC, BC = "STATS_IDX_PROPAGATOR_FILTER_NB", "STATS_IDX_PROPAGATOR_ENTAILMENT_NB", "STATS_IDX_PROPAGATOR_INCONSISTENCY_NB", "STATS_IDX_PROPAGATOR_FILTER_NO_CHANGE_NB", "STATS_IDX_ALG_BC_NB"
 OTHER_STATS = f"forall(k, 0, 13, implies(k != {F} and k != {E} and k != {I} and k != {NC} and k != {BC}, statistics[k] == old(statistics)[k]))"
@@ -18,25 +18,28 @@ OUTER = [
     ("C07.flag_levels", f"forall(l, 0, H, implies(l != top, forall(p, 0, P, {NEs}[l, p] == {NE0}[l, p])))"),
     ("C07.flags_only_cleared", f"forall(p, 0, P, implies({NEs}[top, p], {NE0}[top, p]))"),
     ("C16.prop_idx", "-1 <= prop_idx and prop_idx < P"),
+    ("C02.sol", f"implies(sol() and in_box({SS0}, top), in_box({SS}, top))"),
 ] + STATS_INV
 INNER = [
     ("C08.levels", f"forall(l, 0, H, implies(l != top, lvl_same({SS}, pre({SS}), l, D)))"),
     ("C08.shrink", f"forall(d, 0, D, pre({SS})[top, d, MIN] <= {SS}[top, d, MIN] and {SS}[top, d, MIN] <= {SS}[top, d, MAX] and {SS}[top, d, MAX] <= pre({SS})[top, d, MAX])"),
     ("C17.frame", "same_pre(statistics)"),
+    ("C02.sol", f"implies(sol() and in_box(pre({SS}), top), in_box({SS}, top))"),
     ("C17.nochange", "implies(not shr_domains_changes, same_pre(shr_domains_stack))"),
 ]
 
 contract("nucs/solvers/bound_consistency_algorithm.py::bound_consistency_algorithm", types=ENGINE_T,
-    props=["C01", "C07", "C08", "C16", "C17", "C13", "C19"],
+    props=["C01", "C02", "C03", "C05", "C07", "C08", "C10", "C16", "C17", "C13", "C19"],
     requires=WF_STATIC + WF_DYN, calls={"compute_domains_fct": "iface:Propagator"}, ghost_calls={"compute_domains_fct": "calls"},
+    ghost={"sigma": "int[D]"}, defs=[V_DEF], call_ghosts={"compute_domains_fct": {"pidx": "prop_idx", "tvec": "tv(prop_idx)"}},
     modifies=["statistics", "shr_domains_stack", "not_entailed_propagators_stack", "triggered_propagators"],
     loops={1: dict(fingerprint="while True", invariant=OUTER),
            2: dict(index="v", fingerprint="for range(prop_var_end - prop_var_start)", invariant=INNER)},
-    ensures=CA_FRAME + [CA_SHRINK, CA_STATUS, CA_BOUND, CA_UNBOUND,
+    ensures=CA_FRAME + [CA_SHRINK, CA_STATUS, CA_BOUND, CA_UNBOUND, CA_PRESERVE,
         ("C17.bc", f"{dstat(BC)} == 1"),
         ("C17.filter", f"{dstat(F)} == calls"),
         ("C17.incons", f"{dstat(I)} == ite(result == PROBLEM_INCONSISTENT, 1, 0)"),
         ("C17.outcomes", f"0 <= {dstat(E)} and 0 <= {dstat(NC)} and {dstat(E)} <= calls and {dstat(NC)} + {dstat(I)} <= calls"),
         ("C17.others", OTHER_STATS)],
-    tags={"C08": ["C08"], "C07": ["C07"], "C01": ["C01", "C02"], "C17": ["C17"], "wf": ["C16"]},
+    tags={"C08": ["C08"], "C07": ["C07"], "C01": ["C01", "C02"], "C02": ["C02", "C05", "C10", "C03"], "C17": ["C17"], "wf": ["C16"]},
     arities=[{"H": 2, "D": 2, "P": 2, "PB": 2, "V": 2, "NV": 3, "NP": 2, "K": 2}])
